@@ -11,8 +11,10 @@ import (
 // propertyExtras returns the obligations produced by property-specific generators.
 func propertyExtras(eng *Engine, prop, tier, vdir string) (extras []Extra, bounded []string, notes []string) {
 	switch prop {
-	case "C15", "C09":
-		// (C09 rests on the same anchored expressions: a too permissive expression makes near-miss comments annotations)
+	case "C15", "C09", "C01", "C02", "C03", "C04", "C05", "C07":
+		// (C09 rests on the same anchored expressions: a too permissive expression makes near-miss comments annotations;
+		// the checker properties C01-C05 and C07 rest on them because an annotation that is not recognised is never enforced -
+		// the expressions are on the data path of every one of them)
 		ex, n := relangExtras(eng, vdir)
 		extras = append(extras, ex...)
 		notes = append(notes, n...)
